@@ -1,6 +1,7 @@
 package checks
 
 import (
+	"bytes"
 	"encoding/json"
 	"errors"
 	"fmt"
@@ -343,5 +344,48 @@ func explore19(r *kit.Run, n, t int) (int, int, string) {
 		}
 	}
 	r.Add("distinct_state_names_listed", listed)
+	// a round that grows large: from a signing-ready dump, a batch whose answers carry 600 KiB each
+	// (a long baked range does that): every dump on the way - well over a megabyte - must restore,
+	// and the restored round must answer the next event like the one continued in memory
+	if ready, ok := stateNames[string(sif.StateSigningIdle)]; ok {
+		bulk := []fsmInput{{"event_signing_start[bulky batch]", sif.EventSigningStart, requests.SigningBatchProposalStartRequest{BatchID: "bulky", ParticipantId: 0, CreatedAt: world.T0, SigningTasks: []requests.SigningTask{{MessageID: "bulky-m", File: "f", Payload: []byte("bulky")}}}}}
+		for p := 0; p < n; p++ {
+			bulk = append(bulk, fsmInput{fmt.Sprintf("event_signing_partial_sign_received[p=%d, 600 KiB]", p), sif.EventSigningPartialSignReceived, requests.SigningProposalBatchPartialSignRequests{BatchID: "bulky", ParticipantId: p, PartialSigns: []requests.PartialSign{{MessageID: "bulky-m", Sign: bytes.Repeat([]byte{byte('a' + p)}, 600<<10)}}, CreatedAt: world.T0}})
+		}
+		cur := ready
+		live, err := restore(cur)
+		if err != nil {
+			r.Infra("the signing-ready dump does not restore: %v", err)
+		}
+		var path []string
+		maxDump := 0
+		for _, in := range bulk {
+			path = append(path, in.Label)
+			rest, rerr := restore(cur)
+			if rerr != nil {
+				r.Violation("C19/not-restorable/large-round", fmt.Sprintf("a round dump of %d bytes (after %v) cannot be restored: %v", len(cur), path[:len(path)-1], rerr), map[string]interface{}{"path": path, "dump_bytes": len(cur)})
+				break
+			}
+			o1, o2 := run(rest, in), run(live, in)
+			if o1.errd != o2.errd || o1.state != o2.state || o1.data != o2.data || o1.dump != o2.dump {
+				r.Violation("C19/restored-differs-from-live/large-round", fmt.Sprintf("after %v the restored round answers %s differently from the round continued in memory (error %v/%v, state %s/%s)", path[:len(path)-1], in.Label, o1.errd, o2.errd, o1.state, o2.state), map[string]interface{}{"path": path})
+				break
+			}
+			if o1.errd || o1.dump == "" {
+				continue // (the t-th answer hands over to the collected state; later ones are refused)
+			}
+			cur = []byte(o1.dump)
+			if len(cur) > maxDump {
+				maxDump = len(cur)
+			}
+			// (the node restores before every message; the live side does so at the hand-over too)
+			if nl, lerr := restore(cur); lerr == nil && fsm.State(o1.state) != sif.StateSigningAwaitPartialSigns {
+				live = nl
+			}
+		}
+		mu.Lock()
+		r.Set(fmt.Sprintf("largest_round_dump_bytes_n%d_t%d", n, t), maxDump)
+		mu.Unlock()
+	}
 	return res.States, res.Transitions, fmt.Sprintf("state_names=%d alphabet=%d", len(stateNames), len(alphabet))
 }
